@@ -19,9 +19,10 @@ theorem about an executable model can state it.  What is proved here:
     * bounded return: `client_step_decreases` (every own step strictly decreases `rankC`, bound
       `numShards + |buf| + |sendq| + 11`) and `applier_progress_unblocks` (applier-local
       lexicographic rank; FIFO positions of blocked senders / `Wait` markers never grow and
-      shrink with every receive; bounded by `|buf| + |sendq|`).  Weak fairness is NOT
-      formalised: "every call returns under weak fairness" follows from these ranking lemmas
-      and `c08_deadlock_free` by the standard argument, which is not mechanised.
+      shrink with every receive; bounded by `|buf| + |sendq|`).  The termination theorem over
+      infinite fair executions built on these lemmas is in `RV/Props/C08Fair.lean`
+      (`c08_non_clear_calls_return`, `c08_every_call_returns`; `Clear` needs "sends cease":
+      `c08_clear_livelock_counterexample`, finding F13).
 (B) `c08_lock_discipline`: a kernel `decide` over the table `Gen.Locks.accesses` extracted from
     cache.go / store.go / policy.go / ring.go / ttl.go / sketch.go by `go2lean/locks.go`: any two
     accesses to the same field of a shared struct, one of them a write, are both atomic, or hold a
